@@ -1,4 +1,25 @@
--- Root of the library: imports every model, lemma and property module.
--- `lake build` (the setup command) therefore re-checks every theorem.
+-- Root of the library: imports every property module (and through them every model and
+-- lemma file).  `lake build` (run by setup.sh) therefore re-checks every theorem.
 import Babylon.Core.Reach
 import Babylon.Core.Proto
+import Babylon.Core.Skel
+import Babylon.Properties.C01
+import Babylon.Properties.C02
+import Babylon.Properties.C03
+import Babylon.Properties.C04
+import Babylon.Properties.C05
+import Babylon.Properties.C06
+import Babylon.Properties.C07
+import Babylon.Properties.C08
+import Babylon.Properties.C09
+import Babylon.Properties.C10
+import Babylon.Properties.C11
+import Babylon.Properties.C12
+import Babylon.Properties.C13
+import Babylon.Properties.C14
+import Babylon.Properties.C15
+import Babylon.Properties.C16
+import Babylon.Properties.C17
+import Babylon.Properties.C18
+import Babylon.Properties.C19
+import Babylon.Properties.C20
